@@ -58,7 +58,12 @@ Wrap(c, p) == [p EXCEPT !.x = WrapCo(c, 1, p.x), !.y = WrapCo(c, 2, p.y),
 
 \* what a ghost must look like for comparison: the extra property q is only
 \* demanded when it is among the copied properties
-View(c, p) == IF c.copyq THEN p ELSE [p EXCEPT !.q = 0]
+\* (q is a double property present from the start; ei/es* are int / strided
+\* float properties present from the start, li/lu/ls* int / unsigned /
+\* strided double properties added after the first update)
+Extra == {"q", "ei", "es0", "es1", "li", "lu", "ls0", "ls1"}
+View(c, p) == IF c.copyq THEN p
+              ELSE [f \in DOMAIN p |-> IF f \in Extra THEN 0 ELSE p[f]]
 
 (* Property layer over one array: `before` the real particles (sequence)   *)
 (* before the update, `after` all rows after it.                           *)
@@ -95,9 +100,12 @@ P_NoDuplicates(c, before, after) ==
     LET gs == GhostViews(c, after)
     IN \A v \in Range(gs) : Count(gs, v) <= NPairs(c, before, v, FALSE)
 \* a second update without any move gives the same particles
-P_Idempotent(after, again) ==
-    /\ Len(after) = Len(again)
-    /\ \A v \in Range(after) \cup Range(again) : Count(after, v) = Count(again, v)
+IdemView(c, q) == [k \in DOMAIN q |-> IF q[k].tag = 0 THEN q[k] ELSE View(c, q[k])]
+P_Idempotent(c, after0, again0) ==
+    LET after == IdemView(c, after0)
+        again == IdemView(c, again0)
+    IN /\ Len(after) = Len(again)
+       /\ \A v \in Range(after) \cup Range(again) : Count(after, v) = Count(again, v)
 
 Clauses == {"Wrapped", "RealsFirst", "GhostsTagged", "NoneMissing",
             "NoneSpurious", "NoDuplicates", "Idempotent"}
@@ -108,7 +116,7 @@ Holds(n, c, before, after, again) ==
       [] n = "NoneMissing"  -> P_NoneMissing(c, before, after)
       [] n = "NoneSpurious" -> P_NoneSpurious(c, before, after)
       [] n = "NoDuplicates" -> P_NoDuplicates(c, before, after)
-      [] n = "Idempotent"   -> P_Idempotent(after, again)
+      [] n = "Idempotent"   -> P_Idempotent(c, after, again)
 Failed(c, before, after, again) ==
     {n \in Clauses : ~Holds(n, c, before, after, again)}
 
